@@ -105,6 +105,11 @@ class New(cssutils.util._BaseClass):
             # handle next time
             return
 
+        if typ == 'COMMENT':
+            # a saved prefix belongs to the name which follows the comment
+            seq.append(val, typ, line=line, col=col)
+            return
+
         if self._PREFIX is not None:
             # as saved from before and reset to None
             prefix, self._PREFIX = self._PREFIX, None
